@@ -173,6 +173,13 @@ def discharge(prog, f, n, kind, pv):
             os_ = pv.origins(f, hir.call_args(n)[1])
             if os_ and all(r[0] == "call" and r[1].split("::")[-1] in ("position", "len") for r, p in os_):
                 return "G4: index is a position() within the list or its len()"
+            from . import c07 as _c07
+
+            _c07._PRED_CTX["prog"] = prog
+            _c07._PRED_CTX["fn"] = f
+            idm = _c07.index_idiom(prog, f, hir.call_args(n)[1])
+            if idm[0] == "after-last":
+                return "G4: index is rposition(..) + 1 of the list (<= len) or 0"
             if os_ and all((r[0] == "call" and r[1].split("::")[-1] == "count") or (r[0] == "lit" and r[1] == 0) for r, p in os_):
                 ok = True
                 for r, p in os_:
